@@ -367,11 +367,6 @@ theorem padSpecs_findMarker (s pre post : Bytes) (h : findMarker s = some (pre, 
         rw [padSpecs_cons, matchPad_none_of' b r hb']
         exact ih p1 hf
 
-theorem padSpecs_noMatch (s : Bytes) (h : ∀ b r, matchPad (b :: r) = none) : padSpecs s = [] := by
-  induction s with
-  | nil => rfl
-  | cons b r ih => rw [padSpecs_cons, h b r]; exact ih
-
 theorem matchPad_noGt (s : Bytes) (h : ∀ b ∈ s, b ≠ 62) : matchPad s = none := by
   unfold matchPad
   split
